@@ -597,9 +597,6 @@ func (nz *Normalizer) siteEdit(fset *token.FileSet, s *nfSite) (textEdit, map[st
 			if !isSimpleExpr(x.Fun) {
 				return textEdit{}, nil, "evaluation order"
 			}
-			if x.Ellipsis.IsValid() {
-				return textEdit{}, nil, "variadic spread"
-			}
 			for _, a := range x.Args {
 				if a == child {
 					break
